@@ -186,3 +186,35 @@ func solve(script string, total time.Duration, all bool) (SolveResult, []SolveRe
 	}
 	return best, tried
 }
+
+// runSolverBatch runs one incremental script with n check-sat commands and returns the n verdicts
+// (missing ones are "unknown"). Any error in the output invalidates all verdicts after it.
+func runSolverBatch(sp solverSpec, script string, perQuery time.Duration, n int) []string {
+	f := tmpFile(sp.name + "-batch")
+	if err := os.WriteFile(f, []byte(script), 0o644); err != nil {
+		return nil
+	}
+	defer os.Remove(f)
+	total := perQuery*time.Duration(n) + 5*time.Second
+	ctx, cancel := context.WithTimeout(context.Background(), total)
+	defer cancel()
+	args := sp.args(f, int(perQuery/time.Millisecond))
+	cmd := exec.CommandContext(ctx, args[0], args[1:]...)
+	var out bytes.Buffer
+	cmd.Stdout = &out
+	cmd.Stderr = &out
+	_ = cmd.Run()
+	var res []string
+	for _, l := range strings.Split(out.String(), "\n") {
+		l = strings.TrimSpace(l)
+		switch l {
+		case "sat", "unsat", "unknown", "timeout":
+			res = append(res, l)
+		default:
+			if strings.HasPrefix(l, "(error") {
+				return res // nothing after an error is trusted
+			}
+		}
+	}
+	return res
+}
